@@ -315,6 +315,74 @@ func c14Worker(c *core.Collector, x *Ctx) {
 		}
 		hookEval(c, sc, cats, true)
 	})
+	// ---- overlapping transfers of three message IDs where ONE read both ends the oldest transfer (its last packet, or its packet 1
+	// once more = a restart) and begins a new one, while a third, stalled transfer sits in between: each transfer's 60 s are
+	// counted from ITS OWN packet 1, whatever else began or ended in the reads around it. (seed C14u1: a cached "oldest transfer"
+	// pointer that the read described above moves to the newest record.)
+	no := c.N(600, 20000)
+	core.ParallelFor(no, ncpu(), func(i int) {
+		r := core.NewRand(c.Seed, "c14o", uint64(i))
+		pm := r.Perm(3)
+		ids := []uint16{[]uint16{0x0801, 0x0704, 0x0200}[pm[0]], []uint16{0x0801, 0x0704, 0x0200}[pm[1]], []uint16{0x0801, 0x0704, 0x0200}[pm[2]]}
+		X, Y, Z := ids[0], ids[1], ids[2]
+		b := &builder{}
+		small := func(n int) [][]byte { // short bodies: two frames must fit one 1023-byte read
+			bs := c05Bodies(r, n, 1)
+			for k := range bs {
+				if len(bs[k]) > 120 {
+					bs[k] = bs[k][:120]
+				}
+			}
+			return bs
+		}
+		xb, yb, zb := small(2), small(3), small(2)
+		feed(b, hookFrame(false, X, 10, true, 2, 1, xb[0]))
+		age(b, int64(core.Pick(r, []int{600, 2000, 7000})))
+		feed(b, hookFrame(false, Y, 20, true, 3, 1, yb[0]))
+		yHeld := 2 + r.Intn(2) // Y holds packets 1 and yHeld, the third one never comes in time
+		feed(b, hookFrame(false, Y, 21, true, 3, uint16(yHeld), yb[yHeld-1]))
+		a2 := int64(core.Pick(r, []int{10000, 20000, 30000, 45000}))
+		age(b, a2)
+		// the read that ends X and begins Z
+		restart := r.Chance(1, 3)
+		var xf []byte
+		if restart {
+			xb = small(2)
+			xf = hookFrame(false, X, 30, true, 2, 1, xb[0])
+		} else {
+			xf = hookFrame(false, X, 11, true, 2, 2, xb[1])
+		}
+		zf := hookFrame(false, Z, 40, true, 2, 1, zb[0])
+		both := append(append([]byte{}, xf...), zf...)
+		if r.Bool() {
+			both = append(append([]byte{}, zf...), xf...)
+		}
+		if len(both) > 1000 {
+			return
+		}
+		b.frames = append(b.frames, xf, zf)
+		b.ops = append(b.ops, hookOp{Feed: core.Hex(both)})
+		yTotal := int64(core.Pick(r, []int{55000, 61000, 61000, 65000, 80000})) // Y's age when its last packet finally arrives
+		age(b, yTotal-a2)
+		if r.Bool() {
+			feed(b, hb(50)) // inbound data notices what is overdue
+		}
+		yMiss := 5 - yHeld
+		feed(b, hookFrame(false, Y, 22, true, 3, uint16(yMiss), yb[yMiss-1])) // delivered only if Y is younger than 60 s
+		feed(b, hookFrame(false, Z, 41, true, 2, 2, zb[1]))                   // Z likewise, by its own clock
+		if restart {
+			feed(b, hookFrame(false, X, 31, true, 2, 2, xb[1]))
+		}
+		feed(b, hb(51))
+		sc := &hookScenario{Kind: "hook", Gen: "overlapping-transfers (one read ends the oldest and begins a new one)", Frames: hexAll(b.frames), Ops: b.ops}
+		if c14NearThreshold(sc) {
+			c.Count("scenarios_skipped_near_threshold", 1)
+			return
+		}
+		c.Count("overlapping_transfer_scenarios", 1)
+		hookEval(c, sc, cats, true)
+	})
+	c.Floor("overlapping_transfer_scenarios", 100)
 	c.Floor("missing_subsets_enumerated", 200)
 }
 
